@@ -10,10 +10,13 @@
 (* containment theorem: sigma is contained in the permutation of w iff     *)
 (* some pin word of sigma is found inside w (ideal formulation of the      *)
 (* factor search, see Pin.tla).                                            *)
+(* Targets: a set of permutations claimed NOT to be pin permutations (the  *)
+(* real perm -> words table maps them to no word); TargetsNotPin refutes   *)
+(* the claim if some reachable word decodes to one of them.                *)
 (***************************************************************************)
 EXTENDS Pin, Json
 
-CONSTANTS MaxLen, ThmLen, PattLen, OccLen, Shard, NShards
+CONSTANTS MaxLen, ThmLen, PattLen, OccLen, Shard, NShards, Targets
 
 VARIABLES word, cfg
 vars == <<word, cfg>>
@@ -57,6 +60,9 @@ Theorem == (InShard /\ Len(word) \in 1..ThmLen) =>
               \A s \in Sigmas : PContains(PinPermOf(cfg), s) <=> FoundPerm(s, FALSE)
 \* the deviating search never misses anything the ideal finds
 DeviationOverReports == (InShard /\ Len(word) \in 1..ThmLen) => \A s \in Sigmas : FoundPerm(s, FALSE) => FoundPerm(s, TRUE)
+
+\* no reachable word decodes to a permutation the code's table maps to no word
+TargetsNotPin == PinPermOf(cfg) \notin Targets
 
 \* ---- emission -------------------------------------------------------------------------------
 Z(t) == [i \in DOMAIN t |-> t[i] - 1]
